@@ -154,15 +154,16 @@ fn budget(prop: &str, tier: &str, seed: u64, scale: f64) -> Budget {
     match prop {
         "C03" => {
             random_runs = r(400_000, 150_000, 18_000_000, 9_000_000);
-            if checked {
-                sweeps.push(sweeps::c03_single_codeword(seed, if quick { 6 } else { 255 }));
-                sweeps.push(sweeps::c03_single_data_pixel(seed));
-                sweeps.push(sweeps::c03_impostor_messages());
-                sweeps.push(sweeps::c03_mimic_boundaries(seed));
-                sweeps.push(sweeps::c03_edge_pairs(seed, if quick { 10 } else { 255 }));
-                if !quick {
-                    sweeps.push(sweeps::c03_sq10_weight2(seed));
-                }
+            // both build profiles run the enumerations (C03 is stated for the decoder, not for one build of it: a path
+            // that exists only without debug assertions must meet every position too); the big ones only on the checked build
+            let small = quick || !checked;
+            sweeps.push(sweeps::c03_single_codeword(seed, if small { 6 } else { 255 }));
+            sweeps.push(sweeps::c03_single_data_pixel(seed));
+            sweeps.push(sweeps::c03_impostor_messages());
+            sweeps.push(sweeps::c03_mimic_boundaries(seed));
+            sweeps.push(sweeps::c03_edge_pairs(seed, if small { 10 } else { 255 }));
+            if !quick && checked {
+                sweeps.push(sweeps::c03_sq10_weight2(seed));
             }
         }
         "C09" => {
@@ -209,6 +210,7 @@ fn budget(prop: &str, tier: &str, seed: u64, scale: f64) -> Budget {
             sweeps.push(sweeps::extreme_widths("C08"));
             sweeps.push(sweeps::framed_symbols("C08", seed));
             sweeps.push(sweeps::c08_adjacent_fixed_pairs(seed));
+            sweeps.push(sweeps::c08_surplus_codewords(seed));
         }
         _ => {
             eprintln!("unknown property {}", prop);
